@@ -186,12 +186,71 @@ func resolveVocab(P *Program) *Vocab {
 			v.Acquirers[f] = true
 		}
 	}
+	learnListAliases(v)
 	return v
 }
 
 var serverPkgs = []string{"nfs", "dir", "inode", "fstxn", "alloctxn", "shrinker", "cache", "dcache", "fh", "super"}
 
 var vocabCache = map[*Program]*Vocab{}
+
+// learnListAliases: the four bookkeeping lists of AllocTxn are vocabulary
+// ("allocInums", "freeInums", "allocBnums", "freeBnums").  Their roles are
+// fixed by who appends to them - AllocINum, FreeINum, AllocBlock, FreeBlock -
+// so a tree that renames them or regroups them ("inodeLists.alloc") is read
+// with the vocabulary names.
+func learnListAliases(v *Vocab) {
+	roles := []struct {
+		fn   *ssa.Function
+		name string
+	}{{v.AllocINum, "allocInums"}, {v.FreeINum, "freeInums"}, {v.AllocBlock, "allocBnums"}, {v.FreeBlock, "freeBnums"}}
+	for _, r := range roles {
+		if r.fn == nil || r.fn.Blocks == nil {
+			continue
+		}
+		var keys []string
+		for _, b := range r.fn.Blocks {
+			for _, in := range b.Instrs {
+				st, ok := in.(*ssa.Store)
+				if !ok {
+					continue
+				}
+				cl, isC := st.Val.(*ssa.Call)
+				if !isC {
+					continue
+				}
+				if bi, isB := cl.Call.Value.(*ssa.Builtin); !isB || bi.Name() != "append" {
+					continue
+				}
+				fa, isF := st.Addr.(*ssa.FieldAddr)
+				if !isF {
+					continue
+				}
+				n := derefNamed(fa.X.Type())
+				if n == nil {
+					continue
+				}
+				stt, isS := n.Underlying().(*types.Struct)
+				if !isS {
+					continue
+				}
+				inner := stt.Field(fa.Field).Name()
+				if outer, isO := fa.X.(*ssa.FieldAddr); isO {
+					if on := derefNamed(outer.X.Type()); on != nil && on == v.AllocTxn {
+						if ost, isS2 := on.Underlying().(*types.Struct); isS2 {
+							keys = append(keys, on.Obj().Name()+"."+ost.Field(outer.Field).Name()+"."+inner)
+						}
+					}
+				} else if n == v.AllocTxn && inner != r.name {
+					keys = append(keys, n.Obj().Name()+"."+inner)
+				}
+			}
+		}
+		if len(keys) == 1 {
+			fieldAlias[keys[0]] = r.name
+		}
+	}
+}
 
 func resolveVocabCached(P *Program) *Vocab {
 	if v, ok := vocabCache[P]; ok {
